@@ -164,7 +164,7 @@ def decide(prop, tier, only_unit=None, verbose=False):
         if verbose:
             print(s)
 
-    results, metas, undecided = [], {}, []
+    results, metas, undecided, pre_violations = [], {}, [], []
     kunits = [u for u in units if u['tool'] == 'kani']
     vunits = [u for u in units if u['tool'] == 'verus']
     try:
@@ -179,12 +179,29 @@ def decide(prop, tier, only_unit=None, verbose=False):
             results += r
             metas.setdefault('verus', []).append(m)
         except Undecided as e:
-            undecided.append(f"verus[{u['unit']}]: {e}")
+            msg = f"verus[{u['unit']}]: {e}"
+            if u.get('driver') and prop in u['properties']:
+                # the code left the verifier's reach (unsupported construct, lost anchor, resource limit): nothing is proved.
+                # Only a refutation that replays on the real code may still be reported: run the paired native search.
+                try:
+                    import driver_run
+                    found, dtxt = driver_run.search(u, prop)
+                except Exception as ex:
+                    found, dtxt = False, f'paired search failed: {ex}'
+                if found:
+                    os.makedirs(common.REPLAYS, exist_ok=True)
+                    path = os.path.join(common.REPLAYS, f"{prop}-{u['unit']}.txt")
+                    open(path, 'w').write(f"# property {prop}: Verus unit {u['unit']} could not be verified ({e})\n"
+                                          f"# the paired native search found a failing input on the real crate\n\n{dtxt}\n")
+                    pre_violations.append(f"VIOLATION property={prop} replay={path} obligation={prop}.{u['unit']}.unverifiable_and_refuted_natively")
+                    continue
+                msg += ' ; paired native search found no failing input'
+            undecided.append(msg)
 
     # ---- classification ---------------------------------------------------------------
     known = [k for k in known_findings() if k['property'] == prop]
     open_known = {k['obligation']: k for k in known if k.get('status') == 'open'}
-    lines, violations, known_hit = [], 0, []
+    lines, violations, known_hit = list(pre_violations), len(pre_violations), []
     for r in results:
         if r.get('expect_fail'):
             # confined harness pinning a recorded finding: failing is the expected outcome
